@@ -5,7 +5,7 @@
    The whole distribution for (N1,N2,T) is computed once (Model.Udist.mass_table), then
    every u of the line is compared.  Tolerance on probabilities: 1e-10 absolute (DESIGN 7, C02). *)
 From Coq Require Import Qround.
-From MM Require Import Base.Num Base.GEComb Model.Choose Model.Udist.
+From MM Require Import Base.Num Base.GEComb Model.GEChoose Model.Udist.
 Local Open Scope Z_scope.
 
 Definition tol_prob : Q := 1 # 10000000000.
